@@ -26,6 +26,10 @@ LEVEL = {
             "Iter's pointer arithmetic is modelled as list traversal; that Iter visits exactly the cached archetypes is tied by the `trace` channel (this is where F9 was found)."),
     "C07": ("full-core", "Proof for every history of inserts (increasing serials) and removes of the three-segment handler list: entries are always ordered by priority class then insertion serial, a new handler goes to the end of its class, removal moves nothing else. World level (new archetypes register handlers in insertion order; global and per-archetype lists) is tied by the `trace` channel and, in C17 runs, by exact comparison of every list with the hook snapshot and the executable invariant.",
             "That the world's insert counter is strictly increasing and that new archetypes iterate by_insert_order is modelled and validated, not proved."),
+    "C08": ("full-core", "Proof about the executed model: (i) the listener filter registered for a handler is the CONJUNCTION of the access expressions of all its targeted receivers (fold of setFilter; Hoare triple over the monadic addHandler), and by C06 its matching set is exactly the documented meaning of every receiver query; (ii) the monadic Arch.registerHandler inserts the handler into the listener list of its event iff that filter matches the archetype's component set, at the end of its priority class, and changes nothing else; (iii) under the listener-table conjunct of the invariant the table of a live archetype and event is exactly the list of live handlers whose filter matches, in C07 order; (iv) deliverOne looks the target's location and that archetype's table up in the state at pop time, discards the event when the target is missing, invokes exactly the members of that list, and a receiver's cached arch state is defined for every listed handler (the F7 unchecked lookup cannot fail). Correspondence: receiver queries x target archetypes x structural changes between send and delivery, with an independent oracle evaluating the receiver queries on the target's components.",
+            "That every operation re-establishes the listener-table conjunct (world-level preservation of the invariant) is validated — executable Inv on every C17 run, listener-table audit on the implementation's own snapshot — not proved."),
+    "C15": ("full-core", "Proof about the executed model: removeHandler equals the RemoveHandler announcement (during which, in every delivery of its depth-first log, the handler is still registered) followed by a pure update after which — under the no-duplicates/locality facts derived from the invariant — the handler is in no global list, no refresh set, no listener list, not in by_insert_order and its id is invalid, while every other handler keeps its position relative to the others in every list; deliverOne invokes only members of the looked-up list, so the removed handler is not invoked in that world; removeEvent announces, selects exactly the handlers that receive the event or have it in their sent set (in the post-announcement world), removes them in insertion order and then the registry entry. Correspondence: removals in every order followed by deliveries to every archetype (trace, reg channels).",
+            "`never invoked afterwards` beyond the post-removal world needs preservation of `k is in no list` by later operations (C17-sized); it is validated by the trace channel and the invariant audit."),
     "C09": ("full-core", "Proof about the model's own per-event step `deliverOne` (decomposed, by rfl, into lookup / handler loop / built-in effect): the lookup changes nothing, so every handler starts from the state at pop time; the built-in effect is applied exactly once, after the handler loop, to the state the handlers left, and (by the depth-first theorem) before anything they queued is delivered; it runs iff the target is alive (or the event global) and no handler took the event; a dead target leaves the world unchanged up to the two destruction ledgers and a value that was to be inserted is destroyed; the effects are pinned by unfolding to spawnAll / removeEntity / traverse+moveEntity, inserting an existing component is an in-place assign that drops the old value, removing an absent one changes nothing. Correspondence: store, trace and destruction channels on dense handler graphs with takers, dead targets and reactions to the same entity.",
             "`a spawned entity exists once its Spawn event has been delivered` is pinned to spawnAll by unfolding and to the slot-map prediction theorem (C03 spawn_all); the loop invariant joining the two inside the monadic world is validated (store channel), not proved."),
     "C11": ("full-core", "Proof about the executed event loop for EVERY per-event step: the events delivered by a flush are exactly (as a multiset, no duplicates) the initially queued events plus everything any delivery left queued — none delivered twice, none lost — and nothing is queued on return; for the model's own `deliverOne`, the per-delivery disposition of the event ledger is proved (dead target / taken / normal completion each destroy the in-flight user event exactly once, built-in events add nothing), hence `flush_destroys_each_user_event_once`. Correspondence: multiset of destroyed event serials and component values per operation, incl. values of unapplied Inserts and events dropped when registration unwinds.",
